@@ -19,6 +19,10 @@ class Unsupported(Exception):
     pass
 
 
+class Obj(dict):
+    """a stand-in object: attribute name -> value"""
+
+
 class Raised(Exception):
     def __init__(self, name):
         self.name = name
@@ -46,6 +50,11 @@ def ev(e, env):
             # modelled here; in-place edits of shared objects are the ownership analysis' subject)
             return ev(g, {"__globals__": env.get("__globals__", {}), "__functions__": env.get("__functions__", {})})
         raise Unsupported("free name %s" % e.id)
+    if isinstance(e, ast.Attribute) and isinstance(e.ctx, ast.Load):
+        base = ev(e.value, env)
+        if isinstance(base, Obj) and e.attr in base:
+            return base[e.attr]
+        raise Unsupported("attribute " + U(e)[:60])
     if isinstance(e, ast.Compare):
         left = ev(e.left, env)
         for op, c in zip(e.ops, e.comparators):
@@ -113,12 +122,13 @@ def ev(e, env):
             raise Unsupported("dict unpacking")
         return {ev(k, env): ev(v, env) for k, v in zip(e.keys, e.values)}
     if isinstance(e, ast.Call):
-        if isinstance(e.func, ast.Name) and e.func.id in ("len", "str", "int", "bool", "set", "tuple", "list", "sorted", "any", "all", "dict") \
+        if isinstance(e.func, ast.Name) and e.func.id in ("len", "str", "int", "bool", "set", "tuple", "list", "sorted", "any", "all", "dict", "range", "enumerate", "zip") \
                 and not e.keywords:
             args = [ev(a, env) for a in e.args]
             try:
                 return {"len": len, "str": str, "int": int, "bool": bool, "set": frozenset, "tuple": tuple, "list": list,
-                        "sorted": sorted, "any": any, "all": all, "dict": dict}[e.func.id](*args)
+                        "sorted": sorted, "any": any, "all": all, "dict": dict, "range": lambda *a: list(range(*a)),
+                        "enumerate": lambda *a: list(enumerate(*a)), "zip": lambda *a: list(zip(*a))}[e.func.id](*args)
             except (TypeError, ValueError) as x:
                 raise Raised(type(x).__name__)
         if isinstance(e.func, ast.Attribute) and e.func.attr in _STR_METHODS and not e.keywords:
@@ -210,6 +220,38 @@ def run_block(stmts, env):
                 and isinstance(s.targets[0].value, ast.Name) and isinstance(env.get(s.targets[0].value.id), dict):
             env[s.targets[0].value.id][ev(s.targets[0].slice, env)] = ev(s.value, env)
             continue
+        if isinstance(s, ast.For) and not s.orelse:
+            # a loop over a value that folded to a finite collection (closed initialisers such as a table built at import time)
+            it = ev(s.iter, env)
+            if isinstance(it, dict):
+                it = list(it)
+            if not isinstance(it, (list, tuple, str, frozenset, set, range)):
+                raise Unsupported("loop over " + U(s.iter)[:60])
+            if isinstance(it, (set, frozenset)):
+                it = sorted(it)
+            for item in it:
+                env["__steps__"] = env.get("__steps__", 0) + 1
+                if env["__steps__"] > 20000:
+                    raise Unsupported("loop too long")
+                if isinstance(s.target, ast.Name):
+                    env[s.target.id] = item
+                elif isinstance(s.target, (ast.Tuple, ast.List)) and all(isinstance(t, ast.Name) for t in s.target.elts) \
+                        and isinstance(item, (tuple, list)) and len(item) == len(s.target.elts):
+                    for t, v in zip(s.target.elts, item):
+                        env[t.id] = v
+                else:
+                    raise Unsupported("loop target " + U(s.target))
+                r = run_block(s.body, env)
+                if r is not None:
+                    return r
+            continue
+        if isinstance(s, ast.Expr) and isinstance(s.value, ast.Call) and isinstance(s.value.func, ast.Attribute) \
+                and isinstance(s.value.func.value, ast.Name) and s.value.func.value.id in env and not s.value.keywords \
+                and s.value.func.attr in ("append", "extend", "add", "update", "setdefault", "insert"):
+            recv = env[s.value.func.value.id]
+            if isinstance(recv, (list, dict, set)):
+                getattr(recv, s.value.func.attr)(*[ev(a, env) for a in s.value.args])
+                continue
         if isinstance(s, ast.AugAssign) and isinstance(s.target, ast.Name) and s.target.id in env and isinstance(s.op, (ast.Add, ast.Mult, ast.Sub)):
             env[s.target.id] = ev(ast.BinOp(left=ast.Name(id=s.target.id, ctx=ast.Load()), op=s.op, right=s.value), env)
             continue
